@@ -27,12 +27,20 @@ func C02(run *vf.Run) {
 		Phases2:      vf.Pick(run, "{2, 4}", "{1, 2, 3, 4, 5}"), Workers: 14, Timeout: vf.Pick(run, 15*time.Minute, 120*time.Minute)}) {
 		return
 	}
-	txm.ReplayEdges(run, txm.MCOpts{Name: "lifecycle-edges", Engines: `{"On", "DetectionOnly"}`, ReqLimits: "{2}", Ks: vf.Pick(run, "{3}", "{1, 3}"), Modes: `{"slice"}`,
-		CallNames:    vf.Pick(run, `{"PRH", "PRB", "PRSH", "PRSB", "PL", "WREQ"}`, `{"PRH", "PRB", "PRSH", "PRSB", "PL", "WREQ", "WRESP"}`),
+	// (the edges of one instance are held in memory while they are replayed: the thorough tier explores the response
+	// side in an instance of its own instead of adding WRESP to this one - that product needed > 29 GB)
+	txm.ReplayEdges(run, txm.MCOpts{Name: "lifecycle-edges", Engines: `{"On", "DetectionOnly"}`, ReqLimits: "{2}", Ks: "{3}", Modes: `{"slice"}`,
+		CallNames:    `{"PRH", "PRB", "PRSH", "PRSB", "PL", "WREQ"}`,
 		DisruptKinds: vf.Pick(run, `{"deny", "redirect", "redirect301late", "ctlDet", "ctlOn", "ctlOff", "ctlReqOn", "ctlReqOff"}`, `{"deny", "deny401late", "drop", "redirect", "redirect301", "redirect301late", "ctlDet", "ctlOn", "ctlOff", "ctlReqOn", "ctlReqOff", "ctlRespOn", "ctlRespOff"}`),
 		Phases2:      "{1, 2, 3, 4, 5}", Workers: 14, Timeout: vf.Pick(run, 15*time.Minute, 120*time.Minute), Relevant: rel})
 	if run.NumViolations() > 0 {
 		return
+	}
+	if run.Thorough() && run.NumViolations() == 0 {
+		txm.ReplayEdges(run, txm.MCOpts{Name: "lifecycle-edges-response-side", Engines: `{"On", "DetectionOnly"}`, ReqLimits: "{2}", Ks: "{1, 3}", Modes: `{"slice", "unknown"}`,
+			CallNames:    `{"PRH", "PRSH", "PRSB", "PL", "WRESP"}`,
+			DisruptKinds: `{"deny", "drop", "redirect301late", "ctlDet", "ctlOn", "ctlOff", "ctlRespOn", "ctlRespOff"}`,
+			Phases2:      "{1, 3, 4, 5}", ReqShapes: `{"off/Reject"}`, Workers: 14, Timeout: 120 * time.Minute, Relevant: rel})
 	}
 	// a second disruptive rule in any phase (before, in, or after the phase of the first special rule)
 	txm.ReplayEdges(run, txm.MCOpts{Name: "two-disruptive-edges", Engines: `{"On", "DetectionOnly"}`, ReqLimits: "{2}", Ks: "{3}", Modes: `{"slice"}`,
